@@ -112,7 +112,8 @@ SYNTH_EXT = {"rtf-big-picture": ".rtf", "mbox-raw-8bit-headers": ".mbox", "7z-hu
              "zip-ascii-then-nonascii": ".zip", "mbox-ascii-then-nonascii": ".mbox",
              "7z-self-referential-encoded-header": ".7z", "7z-encoded-header-chain": ".7z",
              "tar-absolute-member-names": ".tar", "zip-absolute-member-names": ".zip", "tar-latin1-member-names": ".tar", "zip-with-compressed-members": ".zip",
-             "docx-equations-nested-48": ".docx"}
+             "docx-equations-nested-48": ".docx",
+             "epub-hrefs-climb-1": ".epub", "epub-hrefs-climb-2": ".epub", "epub-hrefs-climb-3": ".epub", "epub-hrefs-absolute": ".epub", "epub-hrefs-dotdot-inside": ".epub"}
 
 
 def _synthetic(name: str) -> bytes:
@@ -157,6 +158,22 @@ def _synthetic(name: str) -> bytes:
             z.writestr("backup/site.tar.gz", _gz.compress(inner_tar.getvalue()))
             z.writestr("backup/site.tgz", _gz.compress(inner_tar.getvalue()))
             z.writestr("last.md", "# qb00005z last member\n")
+        return buf.getvalue()
+    if name.startswith("epub-hrefs-"):
+        # a well-formed book whose manifest hrefs leave the container (../x above the root), are absolute, or walk up and down inside it
+        import io as _io, re as _re, zipfile as _zf
+        from vlib.gen import docs as _docs
+        base, _ = _docs.build("epub", 3)
+        form = {"epub-hrefs-climb-1": b"../", "epub-hrefs-climb-2": b"../../", "epub-hrefs-climb-3": b"../../../shared/", "epub-hrefs-absolute": b"/",
+                "epub-hrefs-dotdot-inside": b"Text/../"}[name]
+        zin = _zf.ZipFile(_io.BytesIO(base))
+        buf = _io.BytesIO()
+        with _zf.ZipFile(buf, "w", _zf.ZIP_DEFLATED) as z:
+            for zi in zin.infolist():
+                d_ = zin.read(zi)
+                if zi.filename.endswith(".opf"):
+                    d_ = _re.sub(rb'(<item\b[^>]*\bhref=")', lambda m: m.group(1) + form, d_)
+                z.writestr(zi, d_, _zf.ZIP_STORED if zi.filename == "mimetype" else _zf.ZIP_DEFLATED)
         return buf.getvalue()
     if name == "docx-equations-nested-48":
         # one equation per structure kind, nested 48 levels deep (delimiters in delimiters, fractions in numerators, radicals, scripts):
